@@ -26,6 +26,7 @@ type Program struct {
 	Gas       uint64
 	WarmAddrs []common.Address
 	WarmSlots []common.Hash // of To
+	AllForks  bool          // run on every fork of the plan (fork-dependent gas rules), not on one in rotation
 }
 
 var (
@@ -617,6 +618,7 @@ func Matrix() []*Program {
 					c.pushN(uint64(cur)).pushN(1).op(0x55).pushN(uint64(nw)).pushN(1).op(0x55).op(0x00)
 					mk("matrix-sstore", c.b)
 					p := out[len(out)-1]
+					p.AllForks = gas == 500_000 // the refund and net-metering rules differ fork by fork
 					p.Gas = gas + 40000
 					if gas < 100000 {
 						p.Gas = gas
@@ -734,14 +736,43 @@ func pairPrograms() []*Program {
 		"create-calls":   create(0xf0, icCalls, 0),
 		"create2-ok":     create(0xf5, icOK, 0),
 		"create2-calls":  create(0xf5, icCalls, 0),
-		"sstore-1":       func(c *code) { c.pushN(1).pushN(1).op(0x55) },
-		"sstore-0":       func(c *code) { c.pushN(0).pushN(1).op(0x55) },
-		"mstore-far":     func(c *code) { c.pushN(7).pushN(0x900).op(0x52) },
+		// the same calls, in memory that is already as large as it will get (so no later expansion moves it), followed by a store over
+		// the argument area and the output window: the return-data buffer must not alias memory
+		"call-pre4+clobber": func(c *code) {
+			c.pushN(0).pushN(0x840).op(0x52).push(cw(12)).pushN(0).op(0x52)
+			call(0xf1, pre, 0, -1)(c)
+			c.push(cw(13)).pushN(0).op(0x52)
+			c.push(cw(12)).pushN(0x40).op(0x52)
+		},
+		"call-B+clobber": func(c *code) {
+			c.pushN(0).pushN(0x840).op(0x52).push(cw(12)).pushN(0).op(0x52)
+			call(0xf1, CB, 0, -1)(c)
+			c.push(cw(13)).pushN(0).op(0x52)
+			c.push(cw(12)).pushN(0x40).op(0x52)
+		},
+		"static-pre4+clobber": func(c *code) {
+			c.pushN(0).pushN(0x840).op(0x52).push(cw(12)).pushN(0).op(0x52)
+			call(0xfa, pre, 0, -1)(c)
+			c.push(cw(13)).pushN(0).op(0x52)
+		},
+		// input 0..64, output window 32..96: the window overlaps the argument area
+		"call-pre4-overlap": func(c *code) {
+			c.pushN(0).pushN(0x840).op(0x52).push(cw(12)).pushN(0).op(0x52).push(cw(9)).pushN(0x20).op(0x52)
+			c.pushN(64).pushN(32).pushN(64).pushN(0).pushN(0).pushAddr(pre).op(0x5a, 0xf1, 0x50)
+		},
+		"delegate-pre4-overlap": func(c *code) {
+			c.pushN(0).pushN(0x840).op(0x52).push(cw(12)).pushN(0).op(0x52).push(cw(9)).pushN(0x20).op(0x52)
+			c.pushN(64).pushN(32).pushN(64).pushN(0).pushAddr(pre).op(0x5a, 0xf4, 0x50)
+		},
+		"sstore-1":   func(c *code) { c.pushN(1).pushN(1).op(0x55) },
+		"sstore-0":   func(c *code) { c.pushN(0).pushN(1).op(0x55) },
+		"mstore-far": func(c *code) { c.pushN(7).pushN(0x900).op(0x52) },
 	}
 	obsv := map[string]act{
 		"rdsize":             func(c *code) { c.op(0x3d).pushN(0x800).op(0x52) },
 		"rdcopy32":           func(c *code) { c.pushN(32).pushN(0).pushN(0x820).op(0x3e) },
 		"rdcopy1":            func(c *code) { c.pushN(1).pushN(0).pushN(0x820).op(0x3e) },
+		"rdcopy4":            func(c *code) { c.pushN(4).pushN(0).pushN(0x820).op(0x3e) },
 		"msize":              func(c *code) { c.op(0x59).pushN(0x800).op(0x52) },
 		"call-v1-nx":         call(0xf1, NX, 1, -1),
 		"call-v1-fresh":      call(0xf1, fresh, 1, -1),
@@ -812,6 +843,33 @@ func nestPrograms() []*Program {
 		}
 		c.op(ends[end]...)
 		return c.b
+	}
+	// a chain several frames deep whose last frame makes two sibling calls (trace addresses of length 4+, fan-out below depth 3):
+	// CA calls itself with calldata[0]+1 until calldata[0] = depth, then calls CB twice
+	for _, depth := range []uint64{1, 2, 3, 4, 5} {
+		for _, kind := range []byte{0xf1, 0xfa} {
+			c := &code{}
+			c.pushN(0).op(0x35).pushN(248).op(0x1c) // d = calldata[0]
+			c.op(0x80).pushN(depth).op(0x11)        // depth > d ?
+			c.op(0x61, 0, 0)
+			fix := len(c.b) - 2
+			c.op(0x57)
+			for i := 0; i < 2; i++ { // bottom: two sibling calls to CB
+				c.pushN(32).pushN(0x40).pushN(0).pushN(0)
+				if kind == 0xf1 {
+					c.pushN(0)
+				}
+				c.pushAddr(CB).op(0x5a, kind, 0x50)
+			}
+			c.op(0x00)
+			d := len(c.b)
+			c.b[fix], c.b[fix+1] = byte(d>>8), byte(d)
+			c.op(0x5b).pushN(1).op(0x01).pushN(0).op(0x53) // mem[0] = d+1
+			c.pushN(32).pushN(0x40).pushN(1).pushN(0).pushN(0).pushAddr(CA).op(0x5a, 0xf1, 0x50, 0x00)
+			p := base(fmt.Sprintf("nest:deep%d-%x", depth, kind), c.b)
+			p.Input = []byte{0}
+			out = append(out, p)
+		}
 	}
 	for _, k1 := range kinds {
 		for _, k2 := range kinds[:3] {
